@@ -297,6 +297,41 @@ theorem nested_swap_axes_3D (I : Integ) (hI : OddRule I) (MC : MCInteg) (name : 
 example : OddRule (fun _ _ f a b => (b - a) * f ((a + b) / 2)) := by
   intro m q g a b; ring
 
+/-! ## re-entrant use: a named method inside the integrand of a named method -/
+
+/-- **nested_methods_eq**: the nested call is the outer rule (method `m1`, parameter `p1`) applied to the function whose
+    value at `x` is the inner rule (method `m2`, parameter `p2`) on `[lo x, hi x]` — each level with its OWN method,
+    parameter and limits, whatever the other level uses. -/
+theorem nested_methods_eq (I : Integ) (name1 name2 : String) (m1 m2 : Method) (h1 : parseMethod name1 = some m1)
+    (h2 : parseMethod name2 = some m2) (p1 p2 : Int) (g : Rat → Rat → Rat) (lo hi : Rat → Rat) (a b : Rat) :
+    nestedCall I name1 p1 name2 p2 g lo hi a b
+      = .ok (int1 I m1 p1 (fun x => int1 I m2 p2 (g x) (lo x) (hi x)) a b) := by
+  unfold nestedCall
+  rw [h2]
+  simp only []
+  rw [integrate1D_known I name1 m1 h1]
+  congr 2
+  funext x
+  rw [integrate1D_known I name2 m2 h2]
+  rfl
+
+/-- with ordered limits at both levels this is literally `I m1 q1 (λx. I m2 q2 (g x) (lo x) (hi x)) a b` with the
+    effective parameters `q = effParam m p` of each level -/
+theorem nested_methods_ordered (I : Integ) (name1 name2 : String) (m1 m2 : Method) (h1 : parseMethod name1 = some m1)
+    (h2 : parseMethod name2 = some m2) (p1 p2 : Int) (g : Rat → Rat → Rat) (lo hi : Rat → Rat) (a b : Rat)
+    (hab : a < b) (hlh : ∀ x, lo x < hi x) :
+    nestedCall I name1 p1 name2 p2 g lo hi a b
+      = .ok (I m1 (effParam m1 p1) (fun x => I m2 (effParam m2 p2) (g x) (lo x) (hi x)) a b) := by
+  rw [nested_methods_eq I name1 name2 m1 m2 h1 h2, int1_ordered I m1 p1 _ a b hab]
+  congr 2
+  funext x
+  exact int1_ordered I m2 p2 _ _ _ (hlh x)
+
+/-- the integrand handed to the spherical rule at ANY evaluation point is `r² f(Spherical_Coordinates(r, acos c, φ))`
+    of that very point — also at the first one, and whatever was evaluated before -/
+theorem sphericalIntegrand_pointwise (sph : Rat → Rat → Rat → Vec3) (acos : Rat → Rat) (f : Vec3 → Rat) (r c phi : Rat) :
+    sphericalIntegrand sph acos f r c phi = r * r * f (sph r (acos c) phi) := rfl
+
 /-! ## the explicit method parameter is honoured as given (no silent cap) -/
 
 /-- **gk_depth_honoured**: an explicit `method_parameter` `p ≠ 0` reaches the Gauss–Kronrod rule unchanged as its
